@@ -81,6 +81,8 @@ def truncated(kind, blocked, bounds, tsplit=None, api='class'):
                 end = 'stop'
             except m.MciIpmDataError:
                 got, end = [], 'error-func'
+            except core.OutOfFuel:
+                fail('vbs_bytes_to_list does not return on truncated data', key='C09/hang', replay=rp)
             except core.ControlFlow:
                 raise
             except Exception as e:
@@ -98,6 +100,8 @@ def truncated(kind, blocked, bounds, tsplit=None, api='class'):
             except m.MciIpmDataError:
                 end = 'error'
                 break
+            except core.OutOfFuel:
+                fail('the reader does not return on a truncated file', key='C09/hang', replay=rp)
             except core.ControlFlow:
                 raise
             except Exception as e:
